@@ -281,13 +281,21 @@ func runAuditProc(failAt int, ops []string, after int, stall bool) string {
 			// session (3 records each, sequence numbers above everything else) queue up behind whatever
 			// is incomplete and are handed over by the maintenance Go routine when that expires, while
 			// the parser Go routine goes on pushing — the two deliver concurrently
+			// (at most 700 of them: the reassembler holds 1000 events, and an overflow would make the parser Go routine evict
+			// the oldest events at the very moment the maintenance Go routine expires them — the order in which the two then
+			// reach the correlator is the Go scheduler's choice, not something to compare)
 			end := time.Now().Add(3200 * time.Millisecond)
-			for seq := 500000 + 1000*k; time.Now().Before(end) && !finished; seq++ {
+			sent := 0
+			for seq := 500000 + 1000*k; time.Now().Before(end) && !finished && sent < 700; seq++ {
+				sent++
 				hdr := fmt.Sprintf("msg=audit(%d.000:%d):", 1600000000+seq, seq)
 				sendLine("type=SYSCALL " + hdr + " arch=c000003e syscall=59 success=no exit=0 a0=1 a1=2 a2=3 a3=4 items=1 ppid=1 pid=31337 auid=1000 uid=1000 gid=1000 euid=1000 suid=1000 fsuid=1000 egid=1000 sgid=1000 fsgid=1000 tty=pts0 ses=99999 comm=\"true\" exe=\"/usr/bin/true\" key=(null)")
 				sendLine("type=EXECVE " + hdr + " argc=3 a0=\"x0\" a1=\"x1\" a2=\"x2\"")
 				sendLine("type=PROCTITLE " + hdr + " proctitle=74727565")
-				time.Sleep(2 * time.Millisecond)
+				time.Sleep(4 * time.Millisecond)
+			}
+			if d := time.Until(end); d > 0 && !finished {
+				time.Sleep(d)
 			}
 			sendLine("")
 			sendLine("")
